@@ -19,6 +19,8 @@ type omap struct {
 	idx   map[interface{}]*mentry // concrete hashable keys
 	other []*mentry               // entries whose keys are not directly hashable (struct, iface, symbolic)
 	n     int
+	site  string // function that created the map (race monitor)
+	inWrite bool
 }
 
 func newOmap(keyT types.Type) *omap {
@@ -46,6 +48,9 @@ func (m *omap) len() int {
 func (m *omap) find(fr *frame, k value) *mentry {
 	if m == nil {
 		return nil
+	}
+	if fr != nil && fr.i.opts.RaceMonitor && !m.inWrite {
+		fr.i.noteMapAccess(fr, m, false)
 	}
 	if hk, ok := hashKey(k); ok {
 		if e, ok := m.idx[hk]; ok {
@@ -80,6 +85,11 @@ func (m *omap) find(fr *frame, k value) *mentry {
 }
 
 func (m *omap) insert(fr *frame, k, v value) {
+	if fr != nil && fr.i.opts.RaceMonitor {
+		fr.i.noteMapAccess(fr, m, true)
+		m.inWrite = true
+		defer func() { m.inWrite = false }()
+	}
 	if e := m.find(fr, k); e != nil {
 		e.v = v
 		return
@@ -95,6 +105,11 @@ func (m *omap) insert(fr *frame, k, v value) {
 }
 
 func (m *omap) delete(fr *frame, k value) {
+	if fr != nil && fr.i.opts.RaceMonitor {
+		fr.i.noteMapAccess(fr, m, true)
+		m.inWrite = true
+		defer func() { m.inWrite = false }()
+	}
 	e := m.find(fr, k)
 	if e == nil {
 		return
@@ -138,6 +153,9 @@ func (it *omapIter) next(fr *frame) tuple {
 func rangeOmap(fr *frame, m *omap) iter {
 	if m == nil {
 		return &omapIter{}
+	}
+	if fr.i.opts.RaceMonitor {
+		fr.i.noteMapAccess(fr, m, false)
 	}
 	ents := m.live()
 	if fr.i.opts.MapOrder && len(ents) >= 2 && fr.i.mapOrderBudget > 0 && fr.i.inRepoCode(fr) {
